@@ -150,6 +150,7 @@ type Exec struct {
 	initVals     map[*ssa.Package]map[*ssa.Global]Value
 	facts        map[int]bool
 	probeOpaque  map[string]bool
+	forceInline  map[string]bool
 	pcSubstFor   *Term
 	pcSubstMap   map[int]*Term
 	eqConst      map[int]*Term
@@ -1813,7 +1814,11 @@ func (x *Exec) callStatic(fr *Frame, fn *ssa.Function, args []Value, bind []Valu
 		}
 		return x.smtCall(fn, k, args)
 	}
-	if !ghost {
+	forced := x.forceInline[shortFn(fn)] || x.forceInline["*"]
+	if sp0 := x.P.specs[name]; sp0 != nil && sp0.Trusted {
+		forced = false // an assumed contract has no body to fall back on
+	}
+	if !ghost && !forced {
 		if sp := x.pickBehavior(fn, name, args); sp != nil && sp.HasContract() && !sp.Inline && x.P.harnessOf[sp.Key()] != nil {
 			return x.useContract(fr, fn, sp, args, pos)
 		}
